@@ -433,3 +433,17 @@ package pilosa
 //@   ensures idx.threshold * 100 <= capacity * idx.loadFactor && idx.threshold <= capacity
 //@   ensures idx.loadFactor < 100 ==> idx.threshold < capacity
 //@   modifies idx.elems, idx.threshold, idx.mask
+
+// ---- C11: the set of peers an anti-entropy pass visits -----------------------------
+
+// Nodes.FilterID: exactly the nodes whose ID differs from id, nothing else and none
+// missing.  holderSyncer walks this list, so a replica left out here is never repaired.
+//@ contract (Nodes).FilterID props C11
+//@   requires forall i :: 0 <= i && i < len(a) ==> a[i] != nil
+//@   ensures forall k :: 0 <= k && k < len(result) ==> (exists i :: 0 <= i && i < len(a) && a[i] == result[k] && a[i].ID != id)
+//@   ensures forall i :: 0 <= i && i < len(a) && a[i].ID != id ==> (exists k :: 0 <= k && k < len(result) && result[k] == a[i])
+//@   ensures len(result) <= len(a)
+//@   loop 1 invariant 0 <= $i + 1 && $i + 1 <= len(a) && len(other) <= $i + 1 && (cap(other) == 0 || fresh(other)) && unchanged(a)
+//@   loop 1 invariant forall k :: 0 <= k && k < len(other) ==> (exists i :: 0 <= i && i <= $i && a[i] == other[k] && a[i].ID != id)
+//@   loop 1 invariant forall i :: 0 <= i && i <= $i && a[i].ID != id ==> (exists k :: 0 <= k && k < len(other) && other[k] == a[i])
+//@   loop 1 decreases len(a) - $i
